@@ -1519,7 +1519,7 @@ impl Vm {
     }
 
     // set the current current instruction pointer. check for overflow
-    if self.fiber.frames().len() == MAX_FRAME_SIZE {
+    if self.fiber.frames().len() >= MAX_FRAME_SIZE {
       return self.runtime_error_from_str(self.builtin.errors.runtime, "Stack overflow.");
     }
 
@@ -1535,7 +1535,7 @@ impl Vm {
     }
 
     // set the current current instruction pointer. check for overflow
-    if self.fiber.frames().len() == MAX_FRAME_SIZE {
+    if self.fiber.frames().len() >= MAX_FRAME_SIZE {
       return self.runtime_error_from_str(self.builtin.errors.runtime, "Stack overflow.");
     }
 
